@@ -629,7 +629,7 @@ func keyRefDigests(k *dns.DNSKEY) string {
 //
 //	d = <ownerpres-hex>,<class>,<tag>,<alg>,<dt>,<digesttext-hex>   r = <sha1>:<sha256>:<sha384> of key i
 func execVerifyDS(f []string) vlib.Res {
-	if len(f) != 5 {
+	if len(f) != 6 {
 		return vlib.Res{Impl: "bad-op"}
 	}
 	var keys []*dns.DNSKEY
@@ -778,7 +778,23 @@ func execVerifyDS(f []string) vlib.Res {
 		}
 		anch = strings.Join(idx, ".")
 	}
-	return vlib.Res{Impl: fmt.Sprintf("unsup=%s ok=%s anch=%s", vlib.B(unsup), vlib.B(got), anch), Oracle: or, Tags: joinTags("nt", tag, tt, "err:"+errEnum(err))}
+	// the same set under the governor named on the line: result and number of digests begun
+	gp := strings.Split(strings.TrimPrefix(f[5], "g="), ",")
+	gov := &fakeWork{maxCand: uint32(vlib.Atoi(gp[0])), maxSet: 1 << 30, budget: vlib.Atoi(gp[1])}
+	wres := "fail"
+	if o := guarded("dsv/VerifyDSWithWork", func() {
+		_, werr := dnssec.VerifyDSWithWork(keyMap, set, gov)
+		switch {
+		case dnssec.IsWorkError(werr):
+			wres = "work"
+		case werr == nil:
+			wres = "ok"
+		}
+	}); o != "" {
+		return vlib.Res{Impl: "panic", Oracle: o, Tags: "nt,panic"}
+	}
+	return vlib.Res{Impl: fmt.Sprintf("unsup=%s ok=%s anch=%s w=%s:%d", vlib.B(unsup), vlib.B(got), anch, wres, gov.begins), Oracle: or,
+		Tags: joinTags("nt", tag, tt, "err:"+errEnum(err), "dsgov:"+wres)}
 }
 
 // rsa vfy <alg> <pkhex> <signedhex> <hashedhex> <sighex>
